@@ -12,6 +12,12 @@ package main
 //	sfb  <field> <order> <len> <bytes> => ok:<v> | reject         FromBytes   (value = bytes mod order, or reject per API)
 //	sbytes <field> <order> <v>         => <bytes>                 Bytes()
 //	swide <field> <order> <bytes>      => ok:<v> | reject         FromWideBytes
+//	sred  <field> <order> <bytes>      => ok:<v> | reject         FromBytesBEReduce (any length; value = bytes mod order)
+//
+// Elements: identity, small multiples of the generator, a doubling walk, zero-coordinate and small-order
+// points, and boundary-coordinate points (boundarySeeks: the curve points nearest to 0, p-1, 2^k and
+// 2^k-1 for the top bit positions, the middle of [2^(bits-1), p) and the top-byte boundary, both signs).
+// Byte strings additionally carry those boundary coordinates (on and off the curve) under every flag.
 //
 // Points are rendered "inf" / "<x>:<y>" (Fp2 "c0/c1"); curve25519 points are rendered in the Edwards
 // coordinates of the underlying representation (the Montgomery map is part of the model).
@@ -429,6 +435,11 @@ func c13Elements(c *Ctx, cd *c13Codec, r *Rng) []any {
 			}
 		}
 	}
+	// boundary coordinates: points whose wire coordinate has its top bits set, lies next to p, next to a
+	// power of two, or is the smallest one on the curve
+	for _, bp := range cd.boundaryPoints(c) {
+		pts = append(pts, bp)
+	}
 	if cd.fam == "edwards" || cd.fam == "mont" {
 		if cd.full == nil { // full curve types: small-order points and mixed-order points
 			for _, e := range ed25519TorsionEnc() {
@@ -450,6 +461,168 @@ func c13Elements(c *Ctx, cd *c13Codec, r *Rng) []any {
 		}
 	}
 	return pts
+}
+
+// c13Seek is a start value for the wire coordinate of a format (x; Edwards: y; curve25519: u) and the
+// direction in which the generator searches for the nearest value that belongs to a curve point.
+type c13Seek struct {
+	from *big.Int
+	step int64
+}
+
+// boundarySeeks lists the boundary regions of the coordinate range [0, p): every single high bit
+// (2^k for the top bit positions of the field and of the byte string), the middle of [2^(bits-1), p),
+// the values next to p, next to the top byte boundary, and the smallest coordinates.
+func (cd *c13Codec) boundarySeeks(thorough bool) []c13Seek {
+	bits := cd.p.BitLen()
+	one := big.NewInt(1)
+	var out []c13Seek
+	pm1 := new(big.Int).Sub(cd.p, one)
+	out = append(out, c13Seek{big.NewInt(0), 1}, c13Seek{pm1, -1})
+	nBits := 4
+	if thorough {
+		nBits = 16
+	}
+	for k := bits - 1; k > bits-1-nBits && k > 1; k-- {
+		v := new(big.Int).Lsh(one, uint(k))
+		if v.Cmp(cd.p) < 0 {
+			out = append(out, c13Seek{v, 1})
+		}
+		out = append(out, c13Seek{new(big.Int).Sub(v, one), -1}) // all lower bits set
+	}
+	hi := new(big.Int).Lsh(one, uint(bits-1))
+	mid := new(big.Int).Add(hi, cd.p)
+	mid.Rsh(mid, 1)
+	out = append(out, c13Seek{mid, 1})
+	// top byte of the encoding = 01 / = 00 with the rest ff
+	tb := new(big.Int).Lsh(one, uint(8*(cd.cb-1)))
+	out = append(out, c13Seek{tb, 1}, c13Seek{new(big.Int).Sub(tb, one), -1})
+	if thorough {
+		for k := 8; k < bits-1; k += 8 { // every byte boundary
+			v := new(big.Int).Lsh(one, uint(k))
+			out = append(out, c13Seek{v, 1}, c13Seek{new(big.Int).Sub(v, one), -1})
+		}
+	}
+	return out
+}
+
+// otherCoord returns, for a wire coordinate v, the second affine coordinate w of a curve point (as the
+// arguments of FromAffine expect them), or nil when v is not the coordinate of a point.  Generator side only.
+func (cd *c13Codec) otherCoord(v *big.Int) *big.Int {
+	if cd.fam == "edwards" {
+		// wire coordinate is y: -x² + y² = 1 + d x² y²  ⇒  x² = (y² - 1)/(d y² + 1)
+		p := cd.p
+		d := hexBig("52036cee2b6ffe738cc740797779e89800700a4d4141d8ab75eb4dca135978a3")
+		yy := new(big.Int).Mul(v, v)
+		num := new(big.Int).Sub(yy, big.NewInt(1))
+		num.Mod(num, p)
+		den := new(big.Int).Add(new(big.Int).Mul(d, yy), big.NewInt(1))
+		den.Mod(den, p)
+		inv := new(big.Int).ModInverse(den, p)
+		if inv == nil {
+			return nil
+		}
+		return sqrtMod(new(big.Int).Mul(num, inv), p)
+	}
+	return cd.someY(v)
+}
+
+// pointsAt builds the points (both signs) whose wire coordinate is v through the public constructors.
+func (cd *c13Codec) pointsAt(v *big.Int) []any {
+	var out []any
+	switch cd.fam {
+	case "sec1", "pasta":
+		for _, odd := range []bool{false, true} {
+			if q, err := cd.affx([]*big.Int{v}, odd); err == nil {
+				out = append(out, q)
+			}
+		}
+	case "edwards", "mont":
+		w := cd.otherCoord(v)
+		if w == nil {
+			return nil
+		}
+		for _, ww := range []*big.Int{w, new(big.Int).Mod(new(big.Int).Neg(w), cd.p)} {
+			x, y := v, ww // curve25519: FromAffine(u, v)
+			if cd.fam == "edwards" {
+				x, y = ww, v
+			}
+			if q, err := cd.aff([]*big.Int{x}, []*big.Int{y}); err == nil {
+				out = append(out, q)
+			}
+			if w.Sign() == 0 {
+				break
+			}
+		}
+	}
+	return out
+}
+
+// boundaryCoords searches from every seek for the nearest coordinate that belongs to a point of the
+// curve type (full-curve types with a constructor from one coordinate only; for the subgroup types the
+// coordinate alone does not determine membership).  Returns the coordinates found.
+func (cd *c13Codec) boundaryCoords(c *Ctx) []*big.Int {
+	if cd.full != nil || cd.comps != 1 || cd.fam == "bls1" {
+		return nil
+	}
+	seen := map[string]bool{}
+	var out []*big.Int
+	for _, sk := range cd.boundarySeeks(c.Thorough()) {
+		v := new(big.Int).Set(sk.from)
+		for tries := 0; tries < 64; tries++ {
+			if v.Sign() < 0 || v.Cmp(cd.p) >= 0 {
+				break
+			}
+			ok := false
+			safely(func() string { ok = len(cd.pointsAt(v)) > 0; return "" })
+			if ok {
+				if !seen[v.Text(16)] {
+					seen[v.Text(16)] = true
+					out = append(out, new(big.Int).Set(v))
+				}
+				break
+			}
+			v.Add(v, big.NewInt(sk.step))
+		}
+	}
+	return out
+}
+
+func (cd *c13Codec) boundaryPoints(c *Ctx) []any {
+	var pts []any
+	for _, v := range cd.boundaryCoords(c) {
+		for _, q := range cd.pointsAt(v) {
+			pts = append(pts, q)
+			c.Count(cd.name + ".boundarypoint")
+			if v.BitLen() == cd.p.BitLen() {
+				c.Count(cd.name + ".boundarypoint.topbit")
+			}
+		}
+	}
+	return pts
+}
+
+// boundaryStrings: coordinates for the byte-string side — the boundary coordinates found on the curve
+// and the raw boundary values themselves (mostly off the curve; x+k·p is added by the caller).
+func (cd *c13Codec) boundaryRaw(c *Ctx) []*big.Int {
+	seen := map[string]bool{}
+	var out []*big.Int
+	add := func(v *big.Int) {
+		if v.Sign() >= 0 && v.Cmp(cd.p) < 0 && !seen[v.Text(16)] {
+			seen[v.Text(16)] = true
+			out = append(out, v)
+		}
+	}
+	for _, v := range cd.boundaryCoords(c) {
+		add(v)
+	}
+	for i, sk := range cd.boundarySeeks(c.Thorough()) {
+		if !c.Thorough() && i >= 10 {
+			break
+		}
+		add(sk.from)
+	}
+	return out
 }
 
 func (cd *c13Codec) safeEnc(format string, p any) string {
@@ -716,7 +889,18 @@ func c13DecodeSide(c *Ctx, cd *c13Codec, r *Rng, pts []any) {
 		}
 		xs = append(xs, v)
 	}
-	for _, x := range xs {
+	firstBoundary := len(xs)
+	for i, v := range cd.boundaryRaw(c) { // boundary coordinates (on and off the curve)
+		c.Count("dec." + cd.name + ".boundarycoord")
+		if cd.comps == 1 {
+			xs = append(xs, []*big.Int{v})
+		} else if i%2 == 0 {
+			xs = append(xs, []*big.Int{v, big.NewInt(int64(r.IntN(3)))})
+		} else {
+			xs = append(xs, []*big.Int{big.NewInt(int64(r.IntN(3))), v})
+		}
+	}
+	for xi, x := range xs {
 		for k := 0; k < 5; k++ {
 			xv := make([]*big.Int, cd.comps)
 			fits := true
@@ -735,8 +919,8 @@ func c13DecodeSide(c *Ctx, cd *c13Codec, r *Rng, pts []any) {
 			flags := cd.flagSpace("compressed")
 			if cd.fam == "sec1" {
 				flags = []int{2, 3}
-			} else if cd.fam == "bls1" || cd.fam == "bls2" {
-				flags = []int{4, 5}
+			} else if (cd.fam == "bls1" || cd.fam == "bls2") && (xi < firstBoundary || k > 0) {
+				flags = []int{4, 5} // boundary coordinates are combined with every flag combination
 			}
 			for _, fl := range flags {
 				both("compressed", cd.compressedOf(xv, fl))
@@ -1006,11 +1190,12 @@ type c13Field struct {
 	wide  int
 	from  func([]byte) (string, error)
 	wideF func([]byte) (string, error)
+	redF  func([]byte) (string, error)
 	bytes func(*big.Int) []byte
 }
 
 func mkField[S interface{ Bytes() []byte }](name string, order *big.Int, size, wide int,
-	from func([]byte) (S, error), wideF func([]byte) (S, error)) c13Field {
+	from func([]byte) (S, error), wideF func([]byte) (S, error), redF func([]byte) (S, error)) c13Field {
 	val := func(s S, err error) (string, error) {
 		if err != nil {
 			return "", err
@@ -1020,6 +1205,7 @@ func mkField[S interface{ Bytes() []byte }](name string, order *big.Int, size, w
 	return c13Field{name: name, order: order, size: size, wide: wide,
 		from:  func(b []byte) (string, error) { return val(from(b)) },
 		wideF: func(b []byte) (string, error) { return val(wideF(b)) },
+		redF:  func(b []byte) (string, error) { return val(redF(b)) },
 		bytes: func(v *big.Int) []byte {
 			s, err := from(beFixed(v, size))
 			if err != nil {
@@ -1033,16 +1219,16 @@ func mkField[S interface{ Bytes() []byte }](name string, order *big.Int, size, w
 func c13Scalars(c *Ctx) {
 	r := NewRng(c.Seed, 1370)
 	fields := []c13Field{
-		mkField("k256.scalar", fieldOrder(fK256), 32, 64, fK256.FromBytes, fK256.FromWideBytes),
-		mkField("p256.scalar", fieldOrder(fP256), 32, 64, fP256.FromBytes, fP256.FromWideBytes),
-		mkField("ed25519.scalar", fieldOrder(fEd25519), 32, 64, fEd25519.FromBytes, fEd25519.FromWideBytes),
-		mkField("pallas.scalar", fieldOrder(fPallas), 32, 64, fPallas.FromBytes, fPallas.FromWideBytes),
-		mkField("vesta.scalar", c13pPallas, 32, 64, pasta.NewVestaScalarField().FromBytes, pasta.NewVestaScalarField().FromWideBytes),
-		mkField("bls12381.scalar", fieldOrder(fBLS), 32, 64, fBLS.FromBytes, fBLS.FromWideBytes),
-		mkField("k256.base", c13pK256, 32, 64, k256.NewBaseField().FromBytes, k256.NewBaseField().FromWideBytes),
-		mkField("p256.base", c13pP256, 32, 64, p256.NewBaseField().FromBytes, p256.NewBaseField().FromWideBytes),
-		mkField("ed25519.base", c13p25519, 32, 64, edwards25519.NewBaseField().FromBytes, edwards25519.NewBaseField().FromWideBytes),
-		mkField("bls12381.base", c13pBLS, 48, 96, bls12381.NewG1BaseField().FromBytes, bls12381.NewG1BaseField().FromWideBytes),
+		mkField("k256.scalar", fieldOrder(fK256), 32, 64, fK256.FromBytes, fK256.FromWideBytes, fK256.FromBytesBEReduce),
+		mkField("p256.scalar", fieldOrder(fP256), 32, 64, fP256.FromBytes, fP256.FromWideBytes, fP256.FromBytesBEReduce),
+		mkField("ed25519.scalar", fieldOrder(fEd25519), 32, 64, fEd25519.FromBytes, fEd25519.FromWideBytes, fEd25519.FromBytesBEReduce),
+		mkField("pallas.scalar", fieldOrder(fPallas), 32, 64, fPallas.FromBytes, fPallas.FromWideBytes, fPallas.FromBytesBEReduce),
+		mkField("vesta.scalar", c13pPallas, 32, 64, pasta.NewVestaScalarField().FromBytes, pasta.NewVestaScalarField().FromWideBytes, pasta.NewVestaScalarField().FromBytesBEReduce),
+		mkField("bls12381.scalar", fieldOrder(fBLS), 32, 64, fBLS.FromBytes, fBLS.FromWideBytes, fBLS.FromBytesBEReduce),
+		mkField("k256.base", c13pK256, 32, 64, k256.NewBaseField().FromBytes, k256.NewBaseField().FromWideBytes, k256.NewBaseField().FromBytesBEReduce),
+		mkField("p256.base", c13pP256, 32, 64, p256.NewBaseField().FromBytes, p256.NewBaseField().FromWideBytes, p256.NewBaseField().FromBytesBEReduce),
+		mkField("ed25519.base", c13p25519, 32, 64, edwards25519.NewBaseField().FromBytes, edwards25519.NewBaseField().FromWideBytes, edwards25519.NewBaseField().FromBytesBEReduce),
+		mkField("bls12381.base", c13pBLS, 48, 96, bls12381.NewG1BaseField().FromBytes, bls12381.NewG1BaseField().FromWideBytes, bls12381.NewG1BaseField().FromBytesBEReduce),
 	}
 	n := 20
 	if c.Thorough() {
@@ -1105,6 +1291,35 @@ func c13Scalars(c *Ctx) {
 			out := safely(func() string { return res(f.wideF(b)) })
 			c.Emit(fmt.Sprintf("swide %s %s %d %s", f.name, q, f.wide, hexBytes(b)), out)
 			c.Count("swide." + f.name)
+		}
+		// FromBytesBEReduce: any length, the value is the big-endian integer modulo the order
+		var reds [][]byte
+		for _, v := range vals {
+			if v.Sign() >= 0 {
+				reds = append(reds, v.Bytes(), beFixed(v, f.size))
+			}
+		}
+		for i := 0; i < n; i++ {
+			b := make([]byte, r.IntN(2*f.size+4))
+			_, _ = r.Read(b)
+			if r.IntN(4) == 0 {
+				for k := range b {
+					b[k] = 0xff
+				}
+			}
+			reds = append(reds, b)
+		}
+		for k := 0; k < 4; k++ { // multiples of the order, wider than the field
+			m := new(big.Int).Mul(f.order, new(big.Int).Lsh(big.NewInt(1), uint(8*f.size*k/2)))
+			reds = append(reds, m.Bytes(), new(big.Int).Sub(m, big.NewInt(1)).Bytes(), new(big.Int).Add(m, big.NewInt(1)).Bytes())
+		}
+		for _, b := range reds {
+			if len(b) == 0 {
+				c.Note("TRIVIAL")
+			}
+			out := safely(func() string { return res(f.redF(b)) })
+			c.Emit(fmt.Sprintf("sred %s %s %s", f.name, q, hexBytes(b)), out)
+			c.Count("sred." + f.name)
 		}
 	}
 }
